@@ -19,7 +19,9 @@ type PrintOpts struct {
 	ActionCode func(id int) string
 	// StateCode returns the Go text of state change id.
 	StateCode func(id int) string
-	V         *rand.Rand
+	// PredText, if set, returns the Go text of a predicate (default: PredCode).
+	PredText func(e *Expr) string
+	V        *rand.Rand
 }
 
 type printer struct {
@@ -325,7 +327,11 @@ func (p *printer) expr1(e *Expr) {
 	case KPred:
 		p.sb.WriteString("&")
 		p.sp("")
-		p.sb.WriteString("{ " + PredCode(e) + " }")
+		if p.o.PredText != nil {
+			p.sb.WriteString("{ " + p.o.PredText(e) + " }")
+		} else {
+			p.sb.WriteString("{ " + PredCode(e) + " }")
+		}
 		p.sp(" ")
 	case KState:
 		code := fmt.Sprintf("p.note(%d, int(position))", e.ID)
